@@ -4,6 +4,7 @@ import (
 	"fmt"
 	"go/token"
 	"go/types"
+	"math"
 	"sort"
 	"strings"
 
@@ -731,4 +732,79 @@ func ruleHandshakeDeadline(c *Checker, rule string) {
 			fnName(fn)+" can return successfully at "+bad+" with the handshake's read deadline still armed: every Read on the established connection fails with a timeout once it expires")
 	}
 	c.decide(n >= 4, rule, "handshake deadline sites", token.NoPos, fmt.Sprintf("%d functions arm a read deadline", n), fmt.Sprintf("only %d functions arm a handshake read deadline (4 expected)", n))
+}
+
+// ruleDeadlineMapping: net.Conn deadlines are mapped onto the gbn timeouts of the same direction,
+// and the zero deadline - "no deadline", which is what the handshake drivers set once they are
+// done - onto "never": SetReadDeadline hands SetRecvTimeout a value that is MaxInt64 on the edge
+// where t.IsZero() holds and time.Until(t) otherwise; SetWriteDeadline likewise with
+// SetSendTimeout. (time.Until of the zero time is a huge negative duration: every later Read
+// would time out at once.)
+func ruleDeadlineMapping(c *Checker, rule string) {
+	w := c.w
+	for _, pr := range [][2]string{{"SetReadDeadline", "SetRecvTimeout"}, {"SetWriteDeadline", "SetSendTimeout"}} {
+		fn := mboxFunc(c, "(*mailbox.connKit)."+pr[0])
+		if fn == nil {
+			continue
+		}
+		t := ssa.Value(fn.Params[1])
+		var calls []*ssa.Call
+		wrong := ""
+		allInstrs(fn, func(in ssa.Instruction) {
+			call, ok := in.(*ssa.Call)
+			if !ok || !call.Common().IsInvoke() {
+				return
+			}
+			switch call.Common().Method.Name() {
+			case pr[1]:
+				calls = append(calls, call)
+			case "SetRecvTimeout", "SetSendTimeout":
+				wrong = call.Common().Method.Name()
+			}
+		})
+		okk, why := len(calls) == 1 && wrong == "", ""
+		if wrong != "" {
+			why = "calls " + wrong
+		}
+		if okk {
+			call := calls[0]
+			// the call is unconditional
+			if len(factsAt(call.Block())) != 0 {
+				okk, why = false, "the timeout is only set conditionally"
+			}
+			arg := call.Common().Args[0]
+			phi, isPhi := arg.(*ssa.Phi)
+			if !isPhi {
+				okk, why = false, "the timeout is "+w.canonFB(arg)+" on every path (no 'never' for the zero deadline)"
+			} else {
+				nInf, nUntil := 0, 0
+				for i, e := range phi.Edges {
+					pred := phi.Block().Preds[i]
+					zeroEdge := false
+					for _, f := range factsOnEdge(pred, phi.Block()) {
+						if cl, ok := f.Cond.(*ssa.Call); ok && f.Val && cl.Common().StaticCallee() != nil && cl.Common().StaticCallee().Name() == "IsZero" && len(cl.Common().Args) == 1 && cl.Common().Args[0] == t {
+							zeroEdge = true
+						}
+					}
+					if k, isK := intConst(e); isK && k == math.MaxInt64 && zeroEdge {
+						nInf++
+						continue
+					}
+					if cl, ok := e.(*ssa.Call); ok && staticCalleeIs(cl.Common(), "time", "", "Until") && cl.Common().Args[0] == t && !zeroEdge {
+						nUntil++
+						continue
+					}
+					okk, why = false, "edge value "+w.canonFB(e)
+				}
+				if nInf == 0 || nUntil == 0 {
+					okk = false
+					if why == "" {
+						why = "the zero deadline is not mapped to MaxInt64"
+					}
+				}
+			}
+		}
+		c.decide(okk, rule, "connKit."+pr[0]+"|"+pr[1]+"(zero deadline -> never, else time.Until)", fn.Pos(), "maps onto "+pr[1]+", MaxInt64 exactly for the zero time",
+			"connKit."+pr[0]+" does not map the deadline onto "+pr[1]+" with 'never' for the zero time ("+why+"): clearing the handshake deadline makes every later call time out at once, or the wrong direction is limited")
+	}
 }
